@@ -185,24 +185,26 @@ def simple(text):
     return isinstance(text, str) and text != "" and set(text) <= SIMPLE
 
 
-def seg_text(seg, sep):
+def seg_text(seg, sep, quote=None):
     kind, ref = seg
     if kind == "i":
         return "[%d]" % ref
     if ref[0] == "int":
         return str(ref[1])
-    return gen_docs.escape_key(ref[1], sep)
+    return gen_docs.escape_key(ref[1], sep, quote)
 
 
-def render(segs, sep):
+def render(segs, sep, quote=None):
+    """``quote``: write keys holding special characters as "..." / '...'
+    instead of escaping each character."""
     if sep == "/":
-        return "/" + "/".join(seg_text(s, "/") for s in segs)
+        return "/" + "/".join(seg_text(s, "/", quote) for s in segs)
     out = ""
     for seg in segs:
         if seg[0] == "i":
             out += "[%d]" % seg[1]
         else:
-            out += ("." if out else "") + seg_text(seg, ".")
+            out += ("." if out else "") + seg_text(seg, ".", quote)
     return out
 
 
@@ -237,6 +239,8 @@ def gen_path(rng, tree, want="any"):
     last = pos[-1]
     roll = rng.random()
     if roll < 0.42:
+        if roll < 0.07:
+            return render(pos, sep, rng.choice(['"', "'"])), "concrete"
         return render(pos, sep), "concrete"
     if last[0] == "i":
         size = len(parent.items)
@@ -399,10 +403,11 @@ def gen_create(rng, tree):
             tail.append(("i", rng.choice([0, 0, 1])))
     elif node.kind == "m":
         used = {k for k, _ in node.items}
-        fresh = [k for k in ("zz", "yy", "q1", "new key", "n.k", "zz2",
-                             "zz3", "zz4", "zz5", "zz6", "zz7", "zz8")
+        fresh = [k for k in ("zz", "yy", "q1", "new key", "n.k", "zz*",
+                             "*", "a&b", "zz2", "zz3", "zz4", "zz5", "zz6",
+                             "zz7", "zz8")
                  if ("str", k) not in used]
-        tail.append(("k", ("str", rng.choice(fresh[:5]))))
+        tail.append(("k", ("str", rng.choice(fresh[:8]))))
     else:
         size = len(node.items)
         tail.append(("i", size + rng.choice([0, 0, 1, 2])))
@@ -812,7 +817,7 @@ class Session:
             # this is not a creation
             self.stats["skipped"] += 1
             return
-        path = render(base + tail, oper.get("sep", "/"))
+        path = render(base + tail, oper.get("sep", "/"), oper.get("quote"))
         value = oper["value"]
         pre_nodes = {p: model.typed_of(n) for p, n in model.walk(tree)}
         pre_anchors = model.canon(tree)[1:]
@@ -1000,6 +1005,7 @@ def gen_op(rng, tree, prop, flow=False):
                 "tail": [list(s) for s in tail],
                 "value": rng.choice([9, "new v", True, 2.5, "zeta"]),
                 "via": rng.choice(["set", "set", "get"]),
+                "quote": rng.choice([None, None, '"', "'"]),
                 "sep": rng.choice(["/", "."]), "form": "create"}
     return {"op": "reopen"}
 
